@@ -442,7 +442,8 @@ SPEC = PropSpec(
                  "default at class level, and no dunder override that changes comparison, hashing, ordering, "
                  "arithmetic or formatting. Hashing/ordering/arithmetic/formatting themselves are CPython's for "
                  "built-in subclasses and are not re-decided; actual copy/pickle results are not executed."
-                 ' R20.e: in both end-to-end documents of C01 every parsed value carries the encoded value as raw_value (a plain built-in, not a view of the packet buffer).'),
+                 ' R20.e: in both end-to-end documents of C01 every parsed value carries the encoded value as raw_value (a plain built-in, not a view of the packet buffer).'
+                 ' __slots__ without __getstate__ on a state class, and dynamically created classes (namedtuple(...)) kept in object state under a name that differs from their type name, make packets unpicklable.'),
     rule_doc="one obligation per class per rule",
     assumptions=["CPython: subclasses of built-ins without overriding dunders behave like the built-in",
                  "copyreg protocol 2: cls.__new__(cls, *getnewargs), then __dict__ update"],
